@@ -175,7 +175,11 @@ def rule_falsy(prog, rep, tier, scope=None):
                             continue
                         n_member += 1
                         member = isinstance(atom.ops[0], ast.In) == bool(p_)   # on this alternative the default IS one of the markers
-                        if member and isinstance(arm, ast.Constant) and arm.value is None and len(alt) == 1:
+                        other = ie.orelse if arm is ie.body else ie.body
+                        # `None if d in none_types else d` maps the marker to the value None and hands it on (to a node builder, a comparison):
+                        # a normalisation of the value, nothing is left out.  The clause is about a choice between *building something* and nothing.
+                        normalises = _is_default_read(other) or (isinstance(other, ast.Name) and other.id in dn) or not isinstance(other, (ast.Call, ast.Dict, ast.List, ast.Tuple))
+                        if member and isinstance(arm, ast.Constant) and arm.value is None and len(alt) == 1 and not normalises:
                             rep.violation(Finding(
                                 "FALSY", fi.qualname, "none-marker-as-absent:%s" % src(atom, 60),
                                 "`%s` yields nothing (None) whenever %s is one of %s: an explicit None - `return None`, `=None`, carried in the IR as the None marker %r - "
